@@ -519,6 +519,8 @@ struct Runner {
 			if (p >= 0 && STATES[p].width > 0) {
 				int id = p + 1; const int k = static_cast<int>(s.prng.below(static_cast<unsigned>(STATES[p].width)));
 				for (int i = 0; i < k; ++i) id += STATES[id].size;
+				// … or a state below that sibling (a request into another branch must be forwarded and resolved there)
+				if (STATES[id].size > 1 && s.prng.chance(60)) id += static_cast<int>(s.prng.below(static_cast<unsigned>(STATES[id].size)));
 				return id;
 			}
 		}
@@ -599,6 +601,100 @@ struct Runner {
 		o.flush();
 	}
 #endif
+
+	// Structured batch sweep: what the random batches reach only by luck, enumerated.  For every state x, every
+	// region p on its ancestor chain and every sibling branch b of x's branch in p:
+	//   composite p:   (go to b) then the batch [x, b', x];  (go to x) then the batch [b', x, b']   — a later request
+	//                  overriding an earlier one at every level of the ancestor climb of `requestImmediate`
+	//   orthogonal p:  (activate p / leave p) then the batch [x, leaf below b]                        — two requests of one
+	//                  step into different prongs, each forwarded into and resolved below its prong
+	// where b' is b itself or a state below it.  Idle callbacks, approving guards.  When the enumeration exceeds `budget`
+	// every k-th combination is taken, the offset depending on the seed.
+	static int firstLeafBelow(int b) { while (STATES[b].width > 0) b = b + 1; return b; }
+	// the first region strictly below b (its sub-state must be RESOLVED by the forward pass), or b's first leaf
+	static int firstRegionBelow(int b) {
+		for (int t = b + 1; t < b + STATES[b].size; ++t) if (STATES[t].width > 0) return t;
+		return firstLeafBelow(b);
+	}
+	void oneBatch(int k, int pre, const int* dests, int n, long& batches) {
+		Out& o = out();
+		if (pre > 0) {
+			o << "op " << k << " imm C " << pre << " -\n";
+			apiRequest(k, true, 0, pre, -1);
+			o << "end\n"; snap(k);
+		}
+		for (int i = 0; i < n; ++i) {
+			o << "op " << k << " req C " << dests[i] << " -\n";
+			apiRequest(k, false, 0, dests[i], -1);
+			o << "end\n"; snap(k);
+		}
+		o << "op " << k << " update\n";
+		enterCall(k); { ApiScope scope; inst(k).update(); }
+		o << "end\n"; snap(k);
+		++batches;
+		if (o.buf.size() > (1u << 20)) o.flush();
+	}
+	void sweepStructured(uint64_t seed, int index, int budget) {
+		Script& s = script();
+		struct Combo { int x, p, b; };
+		std::vector<Combo> combos;
+		for (int x = 1; x < STATE_COUNT; ++x)
+			for (int a = x; a > 0; a = STATES[a].parent) {
+				const int p = STATES[a].parent;
+				if (p < 0 || STATES[p].width < 2) continue;
+				for (int b = p + 1, j = 0; j < STATES[p].width; ++j, b += STATES[b].size)
+					if (b != a) combos.push_back(Combo{x, p, b});
+			}
+		if (combos.empty()) return;
+		const size_t stride = combos.size() > static_cast<size_t>(budget) ? (combos.size() + static_cast<size_t>(budget) - 1) / static_cast<size_t>(budget) : 1;
+		s.prng = Prng{seed * 1111111ull + 3};
+		s.knobs = Knobs{};
+		s.sweeping = true;
+		Out& o = out();
+		o << "scenario " << index << "\n" << "shape " << SHAPE_TEXT << "\n";
+		configLine();
+		for (int k = 0; k < 2; ++k) {
+			o << "op " << k << " new\n";
+			s.firstActivation = true; construct(k, k ? 0xFF : 0x00); s.firstActivation = false;
+			o << "end\n"; snap(k);
+		}
+#if VH_MANUAL
+		o << "op 0 enter\n";
+		enterCall(0);
+		s.firstActivation = true;
+		{ ApiScope scope; inst(0).enter(); }
+		s.firstActivation = false;
+		o << "end\n"; snap(0);
+#endif
+		long batches = 0;
+		for (size_t c = static_cast<size_t>(seed % stride); c < combos.size(); c += stride) {
+			const Combo& cb = combos[c];
+			const int bLeaf = firstLeafBelow(cb.b);
+			if (STATES[cb.p].strategy == 5) {
+				const int bRegion = firstRegionBelow(cb.b);
+				if (bRegion != bLeaf) {												// a nested region must be resolved below the later prong
+					const int deep[2] = {cb.x, bRegion};
+					oneBatch(0, cb.p, deep, 2, batches);
+				}
+				const int two[2] = {cb.x, bLeaf};
+				oneBatch(0, cb.p, two, 2, batches);									// orthogonal region active
+				int outside = 0;
+				for (int t = 1; t < STATE_COUNT; ++t)
+					if (!(t >= cb.p && t < cb.p + STATES[cb.p].size) && !(cb.p >= t && cb.p < t + STATES[t].size)) { outside = t; break; }
+				if (outside) oneBatch(0, outside, two, 2, batches);					// … and entered by the batch
+			} else {
+				const int bb = (c & 1) ? bLeaf : cb.b;
+				const int t1[3] = {cb.x, bb, cb.x};
+				oneBatch(0, cb.b, t1, 3, batches);
+				const int t2[3] = {bb, cb.x, bb};
+				oneBatch(0, cb.x, t2, 3, batches);
+			}
+		}
+		s.sweeping = false;
+		for (int j = 0; j < 2; ++j) { o << "op " << j << " destroy\n"; destroy(j); o << "end\n"; }
+		o << "# stat structured_sweep_batches=" << static_cast<long long>(batches) << "\n";
+		o.flush();
+	}
 
 	void sweepBatches(uint64_t seed, int index, int budget) {
 		Script& s = script();
@@ -939,6 +1035,8 @@ inline int run(int argc, char** argv) {
 #endif
 	if (sweep > 0)
 		runner.sweepBatches(seed, scenarios + 1, sweep / 2);
+	if (sweep > 0)
+		runner.sweepStructured(seed, scenarios + 3, sweep);
 #if VH_UTIL
 	if (sweep > 0)
 		runner.sweepZeroUtility(seed, scenarios + 2);
